@@ -163,3 +163,26 @@ PROPS["C19"] = {
         ],
     },
 }
+
+PROPS["C11"] = {
+    "pkg": "c11", "level": "exploration",
+    "technique": "property-based metamorphic testing (rapid) with fault injection on the random source: twin signing contexts differing in exactly one component are run "
+                 "under a constant / repeating / honest crypto/rand.Reader; oracle = published nonce commitments (FROST D_i,E_i; BIP-340 R.x) differ",
+    "level_text": "For FROST round 1 (both variants) and stand-alone BIP-340 signing, pairs of contexts differing in message, message length, signer set, session id, "
+                  "secret share or variant are executed with the system random source replaced by a broken one that returns identical bytes to both; any shared nonce "
+                  "commitment is a violation. With an honest source (or BIP-340's nil reader) identical inputs must also differ.",
+    "level_note": "Only round 1 of FROST is executed (the commitments are read from the first outgoing broadcast). BIP-340 keys d and n-d are the same key by the standard and are "
+                  "not treated as different contexts.",
+    "rule": "case = (scheme/variant, differing component, random-source kind); every case is non-trivial (a twin pair); distinct = distinct class keys",
+    "assumptions": ["all library randomness flows through crypto/rand.Reader (checked by grep: no math/rand outside tests)"],
+    "tiers": {
+        "quick": [
+            {"run": "^TestFrostNonce$", "checks": 4000, "shards": 8},
+            {"run": "^TestBIP340Nonce$", "checks": 8000, "shards": 4},
+        ],
+        "thorough": [
+            {"run": "^TestFrostNonce$", "checks": 150000, "shards": 12},
+            {"run": "^TestBIP340Nonce$", "checks": 300000, "shards": 4},
+        ],
+    },
+}
